@@ -164,6 +164,7 @@ func cmdCheck(args []string) int {
 	repo := fs.String("repo", "/repo", "repository")
 	prop := fs.String("prop", "", "property id")
 	tier := fs.String("tier", "quick", "quick|thorough")
+	scratch := fs.String("scratch", "", "write evidence/out under this directory instead of /verif (self-tests on mutated copies)")
 	fs.Parse(args)
 	if t := os.Getenv("VERIF_TIER"); t != "" && *tier == "" {
 		*tier = t
@@ -174,6 +175,11 @@ func cmdCheck(args []string) int {
 	}
 	t0 := time.Now()
 	root := verifRoot()
+	croot := root // where contracts/specs/known findings live
+	if *scratch != "" {
+		root = *scratch
+	}
+	_ = croot
 	exp := *prop == "C18"
 	violations := 0
 	var vioLines []string
@@ -206,7 +212,7 @@ func cmdCheck(args []string) int {
 		}
 		return 1
 	}
-	findings := loadFindings(filepath.Join(root, "known_findings.txt"))
+	findings := loadFindings(filepath.Join(croot, "known_findings.txt"))
 	known := map[string]finding{}
 	for _, f := range findings {
 		if f.kind == "finding" && f.prop == *prop {
